@@ -126,7 +126,7 @@ func main() {
 	io.Copy(io.Discard, os.Stdin)
 	if b.Marker != "" {
 		f, _ := os.OpenFile(b.Marker, os.O_APPEND|os.O_CREATE|os.O_WRONLY, 0644)
-		f.WriteString(cmd + "\n")
+		f.WriteString(cmd + "\t" + strconv.FormatInt(time.Now().UnixNano(), 10) + "\n") // command and start time
 		f.Close()
 	}
 	if b.ChildSleep > 0 {
